@@ -60,7 +60,7 @@ func copyTree(src, dst string) error {
 // generatedOnDisk: layouts (by note) that are rendered into the scratch vod root next to the bundled assets.
 var generatedOnDisk = []string{"plain-av", "loop-whole-ms-90k", "loop-not-whole-ms-90k", "loop-1001-odd", "loop-one-tick-off",
 	"two-video-same", "two-video-differ", "two-video-differ-1ms", "time-plain", "thumbs", "gap-in-files", "two-mpds", "video-text", "text-shorter",
-	"id-cyrillic", "id-space", "asset-path-cyrillic", "hi-ts-10mhz-equal", "hi-ts-9mhz-below-1us", "hi-ts-10mhz-one-tick-text",
+	"id-slash", "id-case", "id-cyrillic", "id-space", "asset-path-cyrillic", "hi-ts-10mhz-equal", "hi-ts-9mhz-below-1us", "hi-ts-10mhz-one-tick-text",
 	"time-audio-plain", "time-audio-gap", "time-audio-overlap", "time-audio-second-later", "number-video-time-audio-gap"}
 
 // expected admission of the generated layouts (property text: not a whole number of ms, or
